@@ -75,6 +75,11 @@ fn write_body(
         } else {
             source.to_writer(&mut enc)?;
         }
+
+        // write out what is still buffered, so that errors are reported and not lost in `drop`
+        enc.finish()?;
+        drop(enc);
+        line_wrapper.finish()?;
     }
 
     Ok(())
@@ -125,6 +130,15 @@ impl<W: std::io::Write> Base64Encoder<W> {
         ))
     }
 }
+impl<W: std::io::Write> Base64Encoder<W> {
+    /// Encode and write all remaining buffered data (including padding).
+    ///
+    /// No further writes are allowed after this succeeded.
+    pub(crate) fn finish(&mut self) -> std::io::Result<()> {
+        self.0.finish().map(|_| ())
+    }
+}
+
 impl<W: std::io::Write> std::io::Write for Base64Encoder<W> {
     fn write(&mut self, buf: &[u8]) -> std::io::Result<usize> {
         self.0.write(buf)
